@@ -33,6 +33,7 @@ type rtOutcome struct {
 	Decls   int
 	Kinds   map[string]bool
 	Outcome string // same | the signature (what the model predicts is compared with this)
+	More    [][2]string // every distinct (signature, detail) of the file, the first one included
 }
 
 var (
@@ -144,6 +145,12 @@ func roundTrip(fset *gotoken.FileSet, gf *goast.File) rtOutcome {
 		if r.V != "viol" {
 			r.V, r.Sig, r.Detail, r.Outcome = "viol", sig, detail, sig
 		}
+		for _, m := range r.More {
+			if m[0] == sig {
+				return
+			}
+		}
+		r.More = append(r.More, [2]string{sig, detail})
 	}
 	for _, d := range gf.Decls {
 		if _, bad := d.(*goast.BadDecl); bad {
@@ -181,12 +188,14 @@ func roundTrip(fset *gotoken.FileSet, gf *goast.File) rtOutcome {
 			continue
 		}
 		if s0 != s1 {
-			sig := "header-diff:" + dk
-			conv := back.Decls[0]
-			if where := culpritField(h0, func() goast.Decl { return header(conv) }, s0); where != "" {
-				sig += ":" + where
+			detail := fmt.Sprintf("header changes in the round trip:\n  original : %s\n  converted: %s", oneLine(s0), oneLine(s1))
+			culprits := culpritFields(h0, header(back.Decls[0]), s0)
+			if len(culprits) == 0 {
+				fail("header-diff:"+dk, detail)
 			}
-			fail(sig, fmt.Sprintf("header changes in the round trip:\n  original : %s\n  converted: %s", oneLine(s0), oneLine(s1)))
+			for _, c := range culprits {
+				fail("header-diff:"+dk+":"+c, detail)
+			}
 		}
 	}
 	return r
@@ -219,7 +228,11 @@ func deepDiffAll(a, b reflect.Value, out *[]fieldDiff) {
 			fa, fb := a.Field(i), b.Field(i)
 			if shallowDiffer(fa, fb) {
 				if fb.CanSet() {
-					*out = append(*out, fieldDiff{a.Type().Name() + "." + f.Name, func() { fb.Set(fa) }})
+					where := a.Type().Name() + "." + f.Name
+					if fa.Kind() == reflect.Slice && fa.Len() == 0 && fb.Len() == 0 {
+						where += "(empty)" // nil on one side, empty non-nil on the other: nothing is lost but nil-ness
+					}
+					*out = append(*out, fieldDiff{where, func() { fb.Set(fa) }})
 				}
 				continue
 			}
@@ -253,13 +266,13 @@ func shallowDiffer(a, b reflect.Value) bool {
 	return false
 }
 
-// culpritField names the field whose loss explains the printed difference: the first group of
-// same-named differing fields which, when restored from the original, makes the printed headers
-// equal again (fallback: the first group whose restoration changes the print at all).
-func culpritField(orig goast.Decl, conv func() goast.Decl, want string) string {
-	probe := conv()
+// culpritFields names the fields whose loss explains the printed difference: the differing fields
+// are restored from the original group by group (a group = all differing fields of one
+// <StructKind>.<Field>), in preorder; every group whose restoration changes the printed header is a
+// culprit; the walk stops when the header prints like the original.
+func culpritFields(orig goast.Decl, conv goast.Decl, want string) []string {
 	var all []fieldDiff
-	deepDiffAll(reflect.ValueOf(&orig).Elem(), reflect.ValueOf(&probe).Elem(), &all)
+	deepDiffAll(reflect.ValueOf(&orig).Elem(), reflect.ValueOf(&conv).Elem(), &all)
 	var order []string
 	seen := map[string]bool{}
 	for _, d := range all {
@@ -268,26 +281,24 @@ func culpritField(orig goast.Decl, conv func() goast.Decl, want string) string {
 			order = append(order, d.where)
 		}
 	}
-	base, _ := printDecl(probe)
-	fallback := ""
+	prev, _ := printDecl(conv)
+	var culprits []string
 	for _, g := range order {
-		c := conv()
-		var ds []fieldDiff
-		deepDiffAll(reflect.ValueOf(&orig).Elem(), reflect.ValueOf(&c).Elem(), &ds)
-		for _, d := range ds {
+		for _, d := range all {
 			if d.where == g {
 				d.apply()
 			}
 		}
-		got, err := printDecl(c)
-		if err == nil && got == want {
-			return g
+		got, err := printDecl(conv)
+		if err != nil || got != prev {
+			culprits = append(culprits, g)
 		}
-		if fallback == "" && (err != nil || got != base) {
-			fallback = g
+		prev = got
+		if err == nil && got == want {
+			break
 		}
 	}
-	return fallback
+	return culprits
 }
 
 func oneLine(s string) string { return strings.Join(strings.Fields(s), " ") }
